@@ -112,11 +112,12 @@ class IncrementalPFI(BaseIncrementalFeatureImportance):
                 losses = [self._loss_function(y_i, prediction) for prediction in predictions]
                 avg_loss = np.mean(losses)
                 pfi[feature] = avg_loss - original_loss
+        if update_storage:  # before the estimates are committed: a failing storage leaves them untouched
+            self._storage.update(x_i, y_i)
+        if self.seen_samples >= 1:
             self._importance_trackers.update(pfi)
             variances = {feature: (pfi[feature] - self.importance_values[feature]) ** 2
                          for feature in self.feature_names}
             self._variance_trackers.update(variances)
         self.seen_samples += 1
-        if update_storage:
-            self._storage.update(x_i, y_i)
         return self.importance_values
